@@ -73,7 +73,8 @@ func (d *DiffMeta) item() *Item {
 		for _, cl := range d.Program {
 			if cl.IsCmp("-->", 2) {
 				// grammar rules take the expand_term/2 path and are then asserted
-				c.Setup = append(c.Setup, ":- expand_term("+term.Text(cl, cvar)+", C), assertz(C).")
+				// head and body reach expand_term/2 through variables bound at run time
+				c.Setup = append(c.Setup, ":- XH = "+term.Text(cl.Args[0], cvar)+", XB = "+term.Text(cl.Args[1], cvar)+", expand_term('-->'(XH, XB), C), assertz(C).")
 				continue
 			}
 			if cl.IsCmp(":-", 1) {
@@ -116,7 +117,14 @@ func (d *DiffMeta) refRun(budget int64, opt ref.Options) (*ref.Outcome, error) {
 	if max <= 0 {
 		max = 30
 	}
-	return ref.Run(db, d.Query, vars, int64(d.NVars)+1000, max+1, budget, opt), nil
+	// fresh variables of the reference run are numbered above every variable of the query
+	firstFree := int64(d.NVars)
+	for _, id := range term.VarsOf(d.Query) {
+		if id >= firstFree {
+			firstFree = id + 1
+		}
+	}
+	return ref.Run(db, d.Query, vars, firstFree+1000, max+1, budget, opt), nil
 }
 
 // canonAnswer renders one answer (tuple of the query variables + nothing else) canonically.
